@@ -665,6 +665,10 @@ namespace xtl
                     {
                         c = copysign(std::isinf(c) ? value_type(1) : value_type(0), c);
                         d = copysign(std::isinf(d) ? value_type(1) : value_type(0), d);
+                        // c and d are 0 or +-1 now: halve a and b so that the sums below cannot
+                        // overflow to infinity (0 * inf would be NaN instead of the required zero)
+                        a *= value_type(0.5);
+                        b *= value_type(0.5);
                         x = value_type(0) * (a*c + b*d);
                         y = value_type(0) * (b*c - a*d);
                     }
